@@ -336,6 +336,9 @@ type destModel struct {
 	order  []int // permutation of the option positions
 }
 
+// options for which the relay accepts 0 (destination.New refuses flush, reconn, iobuf and -- with spool -- spoolsyncperiod of 0)
+var zeroOK = map[string]bool{"connbuf": true, "spoolbuf": true, "spoolmaxbytesperfile": true, "spoolsyncevery": true, "spoolsleep": true, "unspoolsleep": true}
+
 var numOpts = []string{"flush", "reconn", "connbuf", "iobuf", "spoolbuf", "spoolmaxbytesperfile", "spoolsyncevery", "spoolsyncperiod", "spoolsleep", "unspoolsleep"}
 var numDefaults = map[string]int{"flush": 1000, "reconn": 10000, "connbuf": 30000, "iobuf": 2000000, "spoolbuf": 10000, "spoolmaxbytesperfile": 200 * 1024 * 1024,
 	"spoolsyncevery": 10000, "spoolsyncperiod": 1000, "spoolsleep": 500, "unspoolsleep": 10}
@@ -425,7 +428,7 @@ func genCarbonSection(t *rapid.T, suffix string) section {
 		nd = 2
 	}
 	var ds []destModel
-	nset, nomit := 0, 0
+	nset, nomit, nzero := 0, 0, 0
 	for j := 0; j < nd; j++ {
 		d := destModel{addr: fmt.Sprintf("127.0.0.1:%d", 1+j), opts: map[string]int{}}
 		if typ == "consistentHashing" {
@@ -438,6 +441,17 @@ func genCarbonSection(t *rapid.T, suffix string) section {
 		for oi, k := range numOpts {
 			if rapid.Bool().Draw(t, fmt.Sprintf("d%d.%s?", j, k)) {
 				d.opts[k] = 1000 + 101*(oi+1) + 20000*(j+1) // distinct from every default, option and destination
+				// boundary values an operator may write: 1 everywhere, and 0 where the relay accepts it (an unbuffered
+				// connection / spool inbox, no pause between spool reads or writes, sync or roll over on every message)
+				switch rapid.IntRange(0, 5).Draw(t, fmt.Sprintf("d%d.%s.boundary", j, k)) {
+				case 0:
+					d.opts[k] = 1
+				case 1:
+					if zeroOK[k] {
+						d.opts[k] = 0
+						nzero++
+					}
+				}
 				nset++
 			} else {
 				nomit++
@@ -484,7 +498,7 @@ func genCarbonSection(t *rapid.T, suffix string) section {
 			checkDest(t, how, j, d, ds[j], dir)
 		}
 	}
-	return section{toml: sb.String(), cmd: cmd, check: check, nontrivial: nset >= 3 && nomit >= 1, classes: []string{"type=" + typ, fmt.Sprintf("ndest=%d", nd)}}
+	return section{toml: sb.String(), cmd: cmd, check: check, nontrivial: nset >= 3 && nomit >= 1, classes: []string{"type=" + typ, fmt.Sprintf("ndest=%d", nd), fmt.Sprintf("explicit-zero-option=%v", nzero > 0)}}
 }
 
 func TestPropCarbonRoute(t *testing.T) {
